@@ -1,3 +1,57 @@
-From AV Require Import Spec.C01.
-Theorem C01_placeholder : True. Proof. exact I. Qed.
-Print Assumptions C01_placeholder.
+(* C01 — Upgrade plan is exactly the missing ancestors, in dependency order.
+   Statement-only file.  `input01 = (history, resolved targets, current rows)`. *)
+From AV Require Import Spec.C01 Proofs.PlanProof Proofs.C01Proof.
+
+(* For every well-formed acyclic history (any size, merges, several roots, depends_on, redundant
+   parents), every set of current rows and every set of resolved targets: when the planner answers
+   with a plan, the plan has no repetition, contains exactly the ancestors-or-self of the targets
+   that are not ancestors-or-self of a current row, and every revision comes after all of its
+   down revisions and dependencies (earlier in the plan, or already implied by the rows). *)
+Theorem C01_plan_exact : forall G T Cur plan,
+  wf_refs G -> ~ cyclic (all_down G) -> ndeps_ok G ->
+  upgrade_plan G T Cur = POk plan ->
+    NoDup plan /\
+    (forall r, In r plan <-> AncOf G T r /\ ~ AncOf G Cur r) /\
+    (forall pre r post, plan = pre ++ r :: post ->
+       forall p, In p (all_down G r) -> In p pre \/ AncOf G Cur p).
+Proof. intros G T Cur plan WF AC NOK E. pose proof (upgrade_plan_result G WF AC NOK T Cur) as H. rewrite E in H. exact H. Qed.
+Print Assumptions C01_plan_exact.
+
+(* The planner never runs out of fuel (the topological sort terminates), never trips
+   `assert not todo`, and refuses only an overlapping request. *)
+Theorem C01_total : forall G T Cur e,
+  wf_refs G -> ~ cyclic (all_down G) -> ndeps_ok G ->
+  upgrade_plan G T Cur = PErr e -> e = PEOverlap /\ (Overlapping G T \/ Overlapping G Cur).
+Proof. intros G T Cur e WF AC NOK E. pose proof (upgrade_plan_result G WF AC NOK T Cur) as H. rewrite E in H.
+  destruct e; try contradiction. auto. Qed.
+Print Assumptions C01_total.
+
+Theorem C01_model_holds : forall G, wf_refs G -> ~ cyclic (all_down G) -> ndeps_ok G ->
+  forall T Cur, C01_holds (G, T, Cur) (upgrade_plan G T Cur).
+Proof. exact model_holds. Qed.
+Print Assumptions C01_model_holds.
+
+(* the boolean decider run on the implementation's plans implies the Prop-level property *)
+Theorem C01_decider_sound : forall G, wf_refs G -> forall T Cur out,
+  check_C01 (G, T, Cur) out = true -> C01_holds (G, T, Cur) out.
+Proof. exact decider_sound. Qed.
+Print Assumptions C01_decider_sound.
+
+(* the boolean class predicate evaluated by the harness is the hypothesis set of the theorems *)
+Theorem C01_inclass : forall G, wf_graphb G = true -> wf_refs G /\ ~ cyclic (all_down G) /\ ndeps_ok G.
+Proof. exact wf_graphb_spec. Qed.
+Print Assumptions C01_inclass.
+
+(* normalisation of depends_on (whatever order the implementation stored) preserves ancestry *)
+Theorem C01_normalisation : forall G, wf_refs G -> ~ cyclic (all_down G) -> ndeps_ok G ->
+  forall x y, path (norm_down G) x y <-> path (all_down G) x y.
+Proof. exact norm_path_iff. Qed.
+Print Assumptions C01_normalisation.
+
+(* non-vacuity: six revisions, two roots, a merge point, a depends_on, two current rows *)
+Definition ex_G : graph :=
+  [mkRev 0 [] [] [] []; mkRev 1 [0] [] [] []; mkRev 2 [0] [] [] []; mkRev 3 [1;2] [] [] [];
+   mkRev 4 [] [] [] []; mkRev 5 [4] [3] [3] []]%N.
+Example C01_nonvacuous : wf_graphb ex_G = true /\ upgrade_plan ex_G [5]%N [1; 4]%N = POk [2; 3; 5]%N
+  /\ check_C01 (ex_G, [5], [1;4])%N (POk [2; 3; 5]%N) = true.
+Proof. vm_compute. auto. Qed.
